@@ -252,6 +252,11 @@ def check_rng(prog: Program, rep: Report) -> None:
                            "fresh entropy outside base/uuid.py (whose value is dumped) makes the resumed run differ")
     rep.unit("random_call_sites", n_draws)
     # set iteration inventory
+    set_returning = {"_get_bases_names"}
+    for mi0, ci0, fn0 in prog.functions():
+        if fn0.returns is not None and ("Set[" in norm(fn0.returns) or norm(fn0.returns) in ("set", "Set", "frozenset")):
+            set_returning.add(fn0.name)
+    rep.extra["set_returning_functions"] = sorted(set_returning)
     for mi, ci, fn in prog.functions():
         set_attrs = set()
         if ci is not None:
@@ -264,7 +269,7 @@ def check_rng(prog: Program, rep: Report) -> None:
                             set_attrs.add(self_attr(a.targets[0]))
         local_sets = {a.targets[0].id for a in ast.walk(fn) if isinstance(a, ast.Assign) and isinstance(a.targets[0], ast.Name)
                       and ((isinstance(a.value, ast.Call) and norm(a.value.func) == "set") or isinstance(a.value, (ast.Set, ast.SetComp)))}
-        set_funcs = {"_get_bases_names"}
+        set_funcs = set_returning
 
         def is_set_expr(e: ast.AST) -> bool:
             if isinstance(e, (ast.Set, ast.SetComp)):
@@ -417,6 +422,10 @@ HS = "jellyfysh/scheduler/heap_scheduler/heap_scheduler.py"
 MI = "jellyfysh/potential/merged_image_coulomb_potential/merged_image_coulomb_potential.py"
 DO = "jellyfysh/input_output_handler/output_handler/dumping_output_handler.py"
 MUTANTS = [
+    Edit("excluded cells tagger iterates the raw set of cells (the repaired defect)", "jellyfysh/activator/tagger/excluded_cells_tagger.py",
+         "for nearby_cell in sorted(self._internal_state.cells.nearby_cells(active_cell),\n"
+         "                                                  key=lambda cell: cell.identifier)",
+         "for nearby_cell in self._internal_state.cells.nearby_cells(active_cell)", "R19.4-set-iteration"),
     Edit("heap scheduler keeps the handle table in the pickle", HS, "        del state[\"_event_handler_handles\"]\n", "", "R19.2"),
     Edit("heap scheduler does not rebuild the scheduler handle", HS,
          "        self._scheduler_handle = _new_handle(self)\n", "", "R19", nth=1),
